@@ -84,6 +84,10 @@ type Decision struct {
 	Apply bool  // apply the effect to the store
 	Err   error // returned to the caller (after the effect, if Apply)
 	Park  bool  // the process dies here: (maybe) apply, then never return
+	// FetchData, if HasFetchData, is what a Fetch returns instead of the stored
+	// object (storage that answers differently from one read to the next).
+	FetchData    []byte
+	HasFetchData bool
 	// Gate, if set, is called outside the world mutex before anything else.
 	Gate func()
 
@@ -496,6 +500,9 @@ func (b *ObjBackend) Fetch(ctx context.Context, key string) ([]byte, error) {
 	if d.Err == nil && !d.Park {
 		if err := ctx.Err(); b.In.HonorCtx && err != nil {
 			d.Err = err
+		} else if d.HasFetchData {
+			out = bytes.Clone(d.FetchData)
+			c.Applied = true
 		} else if v := w.cur(key); v != nil {
 			out = bytes.Clone(v.Data)
 			c.Applied = true
